@@ -157,7 +157,6 @@ RENAME = {
     "self.FailStepException": "FailStepException", "self.TransitionEvent": "TransitionEvent",
     "self.StepFailed": "StepFailed", "self.StepCompleted": "StepCompleted",
     "self.StateComputed": "StateComputed",
-    "cur_phase": "CUR", "cur_state": "CUR",
 }
 KW_RENAME = {"current_phase": "current", "current_state": "current"}
 
@@ -266,8 +265,13 @@ def template_of(P, meth_name):
     """Parse the Python source in the template string of CodeGenerator.<meth>."""
     f = P.func(f"{PYGEN}.{meth_name}")
     strs = []
+    emitters = set()
     for n in ast.walk(f.node):
-        if isinstance(n, ast.Call) and dotted(n.func) == "emit" and n.args:
+        if isinstance(n, ast.Assign) and isinstance(n.value, ast.Call) \
+                and (dotted(n.value.func) or "").endswith("Emitter"):
+            emitters |= {t.id for t in n.targets if isinstance(t, ast.Name)}
+    for n in ast.walk(f.node):
+        if isinstance(n, ast.Call) and dotted(n.func) in emitters and n.args:
             s = string_value(n.args[0])
             if s is not None and "\n" in s:
                 strs.append((n, s))
@@ -281,11 +285,37 @@ def template_of(P, meth_name):
     return f, node, tree
 
 
+def _canon_locals(stmts, params=()):
+    """Rename locals (names stored anywhere in the statements) to l0, l1, ...
+    in order of first store, so that summaries are invariant under renaming."""
+    import copy
+    stmts = copy.deepcopy(list(stmts))
+    order = []
+    for s_ in stmts:
+        for x in ast.walk(s_):
+            if isinstance(x, ast.Name) and isinstance(x.ctx, ast.Store) \
+                    and x.id not in order and x.id not in params and x.id not in RENAME:
+                order.append(x.id)
+            if isinstance(x, ast.ExceptHandler) and x.name and x.name not in order:
+                order.append(x.name)
+    # names with a fixed role keep it
+    ren = {n: f"l{i}" for i, n in enumerate(order)}
+    for s_ in stmts:
+        for x in ast.walk(s_):
+            if isinstance(x, ast.Name) and x.id in ren and x.id not in RENAME:
+                x.id = ren[x.id]
+            if isinstance(x, ast.ExceptHandler) and x.name in ren:
+                x.name = ren[x.name]
+    return stmts
+
+
 def _driver(run, P):
+    from .util import nodoc
     fi = P.func(f"{INTERP}.run")
     fg, node, tree = template_of(P, "_emit_run")
-    a = _summary(fi.node.body)
-    b = _summary(tree.body)
+    # cur_state / cur_phase keep their role through RENAME; other locals are canonicalised
+    a = _summary(_canon_locals(nodoc(fi.node.body), fi.params))
+    b = _summary(_canon_locals(nodoc(tree.body), fi.params))
     ok = a == b
     detail = ""
     if not ok:
